@@ -92,6 +92,10 @@ def pelt_float_stream(ctx, count):
                  sample={"stream": "binary64-table PELT", "cost": name, "n": n, "m": m, "p": p, "impl_changepoints": cpts})
         ctx.count("float_stream", "pelt:" + name)
     bad = coq_bad_cases(ctx.cid, HEADER, "fpelt_case", "fpelt_case_ok", terms, shard=12, tag="fpelt")
+    # premise of the binary64 run theorems (Properties/C02_binary64.v): every float of the run is finite -- evaluated, not assumed
+    nofin = set(coq_bad_cases(ctx.cid, HEADER_RUN, "fpelt_case", "fpelt_case_premise", terms, shard=12, tag="fpeltprem"))
+    for i in range(len(terms)):
+        ctx.count("binary64_run_theorem_premise(pelt_trace_finite)", "fails" if i in nofin else "holds")
     _spec_all(ctx, metas, bad, lambda mt: _pelt_spec(mt, mt["_tab"]), "PELT", lambda mt: f"PELT({mt['cost']}) on float data (n={mt['n']}, m={mt['min_segment_length']}, p={mt['p']}, {mt['data']})")
     for i in bad[:20]:
         mt = metas[i]
@@ -403,6 +407,9 @@ def _pelt_spec(mt, tab):
     return None
 
 
+HEADER_RUN = ("From Coq Require Import PrimFloat List Arith Bool.\n"
+              "From SK Require Import Lib.Base Model.Generic Model.GenericF Model.GenericCapa Check.GenericCheck Check.GenericCapaCheck Check.FloatRunCheck.\n"
+              "Import ListNotations.\nOpen Scope float_scope.")
 HEADER_CAPA = ("From Coq Require Import PrimFloat List Arith Bool.\n"
                "From SK Require Import Lib.Base Model.Generic Model.GenericF Model.GenericCapa Check.GenericCheck Check.GenericCapaCheck.\n"
                "Import ListNotations.\nOpen Scope float_scope.")
@@ -463,6 +470,10 @@ def capa_float_stream(ctx, count):
                  sample={"stream": "binary64-table " + kind, "n": n, "p": p, "m": m, "M": M, "impl_anomalies": iv})
         ctx.count("float_stream", "capa:" + kind)
     bad = coq_bad_cases(ctx.cid, HEADER_CAPA, "fcapa_case", "fcapa_case_ok", terms, shard=10, tag="fcapa")
+    # premise of the binary64 run theorems (Properties/C03_binary64.v): every float of the run is finite -- evaluated, not assumed
+    nofin = set(coq_bad_cases(ctx.cid, HEADER_RUN, "fcapa_case", "fcapa_case_premise", terms, shard=10, tag="fcapaprem"))
+    for i in range(len(terms)):
+        ctx.count("binary64_run_theorem_premise(capa_trace_finite)", "fails" if i in nofin else "holds")
     for i in bad[:20]:
         mt = metas[i]
         ctx.mismatch(f"{mt['detector']} ({mt['penalty_shape']}) on float data (n={mt['n']}, p={mt['p']}, m={mt['min_segment_length']}, M={mt['max_segment_length']}): the generic dynamic "
